@@ -301,9 +301,13 @@ def mk_options(o):
 
 def submit(procname, spec, o):
     """-> verdict, number of requests, experiment or None, recorder"""
+    return submit_circ(procname, ENV["qib"].Circuit([build(i) for i in spec]), o)
+
+
+def submit_circ(procname, circ, o):
+    """submit a given circuit OBJECT -> verdict, number of requests, experiment or None, recorder"""
     import requests
     proc = ENV["procs"][procname]
-    circ = ENV["qib"].Circuit([build(i) for i in spec])
     rec = Recorder()
     saved = requests.put
     requests.put = rec.put
@@ -564,6 +568,292 @@ def history_counts(ctx, desc, res, counts, want_binary, probe=False):
                  (res.get_counts(), list(res.get_counts(binary=True).items())))
     ctx.count("history_get_counts")
     return ok
+
+
+# ---- submission histories on ONE circuit object: the verdict, the number of requests and the Qobj of a submission are a
+# function of what the circuit IS at that moment, whatever was looked at / submitted before and however the circuit got
+# there (instruction objects re-targeted in place through their public API, gates appended / replaced).  Reference: a
+# freshly built circuit with the same content, submitted to the same processor.
+
+def fix_ins(ins):
+    """JSON lists -> the tuple form of a spec instruction"""
+    ins = list(ins)
+    k = ins[0]
+    tq = lambda q: tuple(q)
+    if k == "plain":
+        return ("plain", ins[1], tq(ins[2]))
+    if k == "rot":
+        return ("rot", ins[1], ins[2], tq(ins[3]))
+    if k == "u3":
+        return ("u3", ins[1], ins[2], ins[3], tq(ins[4]))
+    if k == "iswap":
+        return ("iswap", tq(ins[1]), tq(ins[2]))
+    if k == "noqasm":
+        return ("noqasm", ins[1], [tq(q) for q in ins[2]], ins[3])
+    if k == "raw":
+        return ("raw", ins[1], [tq(q) for q in ins[2]], ins[3])
+    if k == "ctrl":
+        return ("ctrl", [tq(q) for q in ins[1]], ins[2], fix_ins(ins[3]))
+    if k == "measure":
+        return ("measure", [tq(q) for q in ins[1]], list(ins[2]))
+    if k == "barrier":
+        return ("barrier", [tq(q) for q in ins[1]])
+    if k == "delay":
+        return ("delay", ins[1], [tq(q) for q in ins[2]])
+    raise AssertionError(ins)
+
+
+def retarget(obj, old, new):
+    """bring the instruction OBJECT (in the state of spec `old`) to the state of spec `new` in place, through the public
+    API of its class: on(...), set_control(...), target_gate(), the theta attribute"""
+    k = old[0]
+    assert new[0] == k, (old, new)
+    if k == "plain":
+        assert old[1] == new[1]
+        obj.on(qubit(new[2]))
+    elif k == "rot":
+        assert old[1] == new[1]
+        obj.theta = new[2]
+        obj.on(qubit(new[3]))
+    elif k == "u3":
+        assert old[1:4] == new[1:4]
+        obj.on(qubit(new[4]))
+    elif k == "iswap":
+        obj.on(qubit(new[1]), qubit(new[2]))
+    elif k == "raw":
+        obj.name, obj.qubits, obj.params = new[1], [qubit(q) for q in new[2]], new[3]
+    elif k == "ctrl":
+        assert old[2] == new[2] and len(old[1]) == len(new[1])
+        obj.set_control([qubit(c) for c in new[1]])
+        retarget(obj.target_gate(), old[3], new[3])
+    elif k == "measure":
+        obj.on([qubit(q) for q in new[1]], list(new[2]) if new[2] else None)
+    elif k == "barrier":
+        obj.on([qubit(q) for q in new[1]])
+    elif k == "delay":
+        assert old[1] == new[1]
+        obj.on([qubit(q) for q in new[2]])
+    else:
+        raise AssertionError(old)
+
+
+def mutate_spec(rng, ins, n, mode):
+    """a spec of the same instruction class with other qubits / clbits / angle; mode 'in': indices inside the n-qubit
+    processor, 'out': at least one index outside, 'any': anything incl. the second field"""
+    def rq(force_out=False):
+        if force_out or (mode == "any" and rng.random() < 0.25):
+            return (0, rng.choice([n, n + 1, n + 4, -1]))
+        return (1 if (mode == "any" and rng.random() < 0.1) else 0, rng.randrange(n))
+    k = ins[0]
+    out1 = (mode == "out")
+    if k == "plain":
+        return ("plain", ins[1], rq(out1))
+    if k == "rot":
+        return ("rot", ins[1], rng.choice([ins[2], ins[2] + 1, -3, 90]), rq(out1))
+    if k == "u3":
+        return ins[:4] + (rq(out1),)
+    if k == "iswap":
+        a = rq(out1)
+        b = rq()
+        while b == a and rng.random() < 0.9:
+            b = rq()
+        return ("iswap", a, b) if rng.random() < 0.5 else ("iswap", b, a)
+    if k == "raw":
+        return ("raw", ins[1], [rq(out1 and i == 0) for i in range(len(ins[2]))], ins[3])
+    if k == "ctrl":
+        inner = mutate_spec(rng, ins[3], n, "in" if out1 and rng.random() < 0.5 else mode)
+        inner_out = any(not (0 <= q[1] < n) for q in used_qubits(inner))
+        cs = [rq(out1 and not inner_out and i == 0) for i in range(len(ins[1]))]
+        return ("ctrl", cs, ins[2], inner)
+    if k == "measure":
+        m = rng.choice([1, 1, 2, 2, 3, len(ins[1]) or 1])
+        qs = [rq(out1 and i == 0) for i in range(m)]
+        rng.shuffle(qs)
+        cl = [] if rng.random() < 0.5 else [rng.randrange(0, 8) for _ in range(m)]
+        return ("measure", qs, cl)
+    if k == "barrier":
+        return ("barrier", [rq(out1 and i == 0) for i in range(rng.randint(1, 3))])
+    if k == "delay":
+        return ("delay", ins[1], [rq(out1 and i == 0) for i in range(rng.randint(1, 3))])
+    return ins
+
+
+def circuit_view(circ):
+    """what Circuit's observers say: particles, clbits, as_qasm (or the exception class)"""
+    out = {}
+    F = ENV["F"]
+    for name, f in (("particles", lambda: [[next((i for i, fl in enumerate(F) if fl is p.field), -1), p.index] for p in circ.particles()]),
+                    ("clbits", lambda: list(circ.clbits())), ("as_qasm", lambda: circ.as_qasm())):
+        try:
+            out[name] = f()
+        except Exception as ex:
+            out[name] = "raises " + type(ex).__name__
+    return out
+
+
+def strip_id(q):
+    q = dict(q)
+    q.pop("qobj_id", None)
+    return q
+
+
+def run_history(ctx, hist, oracle=True):
+    """hist = {"kind": "history", "proc", "ctor": "list" | "append", "circuit": spec, "options", "steps": [{"muts": [...]}]}
+    every step: apply the mutations to the ONE circuit object, then look at it and submit it; compare with a fresh circuit"""
+    qib = ENV["qib"]
+    procname, o = hist["proc"], hist["options"]
+    cur = [fix_ins(i) for i in hist["circuit"]]
+    objs = [build(i) for i in cur]
+    if hist.get("ctor", "list") == "list":
+        circ = qib.Circuit(objs)              # stores the caller's instruction objects
+    else:
+        circ = qib.Circuit()
+        for g in objs:
+            circ.append_gate(g)               # stores copies; the history works on circ.gates[...] (public attribute)
+    for si, step in enumerate(hist["steps"]):
+        desc = dict(hist, steps=hist["steps"][:si + 1], step=si)
+        for m in step["muts"]:
+            if m[0] == "retarget":
+                new = fix_ins(m[2])
+                retarget(circ.gates[m[1]], cur[m[1]], new)
+                cur[m[1]] = new
+            elif m[0] == "append":
+                circ.append_gate(build(fix_ins(m[1])))
+                cur.append(fix_ins(m[1]))
+            elif m[0] == "prepend":
+                circ.prepend_gate(build(fix_ins(m[1])))
+                cur.insert(0, fix_ins(m[1]))
+            elif m[0] == "setitem":
+                circ.gates[m[1]] = build(fix_ins(m[2]))
+                cur[m[1]] = fix_ins(m[2])
+            elif m[0] == "delete":
+                del circ.gates[m[1]]
+                del cur[m[1]]
+            elif m[0] == "peek":                # the observers are called between two mutations
+                circuit_view(circ)
+            else:
+                raise AssertionError(m)
+        fresh = qib.Circuit([build(i) for i in cur])
+        v1, v2 = circuit_view(circ), circuit_view(fresh)
+        for name in ("particles", "clbits", "as_qasm"):
+            if v1[name] != v2[name]:
+                ctx.fail("history:circuit-%s-differs-from-a-fresh-equal-circuit" % name, desc, v2[name], v1[name])
+        if step.get("submit", True):
+            p = step.get("proc", procname)
+            verdict, nreq, exp, rec = submit_circ(p, circ, o)
+            fverdict, fnreq, fexp, frec = submit_circ(p, fresh, o)
+            ctx.count("history_submit_" + verdict.split(":")[0])
+            if verdict != fverdict:
+                ctx.fail("history:resubmission-verdict-differs-from-a-fresh-equal-circuit", desc, fverdict, verdict)
+            if nreq != fnreq:
+                ctx.fail("history:resubmission-request-count-differs-from-a-fresh-equal-circuit", desc, fnreq, nreq)
+            if exp is not None and fexp is not None:
+                q1, q2 = strip_id(exp.as_qasm()), strip_id(fexp.as_qasm())
+                if q1 != q2:
+                    e1, e2 = q1["experiments"][0], q2["experiments"][0]
+                    ctx.fail("history:resubmission-qobj-differs-from-a-fresh-equal-circuit", desc,
+                             {"header": e2["header"], "instructions": e2["instructions"]} if e1 != e2 else q2["config"],
+                             {"header": e1["header"], "instructions": e1["instructions"]} if e1 != e2 else q1["config"])
+                if rec.calls and frec.calls and strip_id(rec.calls[0][1]["qobj"]) != strip_id(frec.calls[0][1]["qobj"]):
+                    ctx.fail("history:resubmission-request-body-differs-from-a-fresh-equal-circuit", desc, "same body", "different")
+            if oracle:
+                oracle_submit(ctx, desc, p, cur, o, verdict, nreq, exp, rec)      # the property itself, on the re-submission
+
+
+def history_inputs(rng, thorough):
+    H = []
+    q = lambda i: (0, i)
+    for procname in ("qsim", "qc", "custom1", "custom2"):
+        cfg = ENV["procs"][procname].configuration()
+        n = cfg.n_qubits
+        o = dict(DEFAULT_OPT, shots=min(1024, cfg.max_shots))
+        one_, two_, meas_ = valid_pool(procname)
+        # scripted: submit; re-target ONE instruction in place out of the processor; back inside; elsewhere inside -- for
+        # every position of a valid circuit ending / starting with a measurement, both ways of building the circuit
+        bases = [[one_[0], rng.choice(one_), meas_[0]], [meas_[-1], rng.choice(one_ + two_)],
+                 [rng.choice(one_ + two_), rng.choice(meas_), rng.choice(one_ + two_)]]
+        bases += base_circuits(procname, rng, 6 if thorough else 2)
+        for base in bases:
+            for pos in range(len(base)):
+                if base[pos][0] == "measure" and not base[pos][1]:
+                    continue
+                for ctor in (("list", "append") if thorough or pos == len(base) - 1 else (rng.choice(["list", "list", "append"]),)):
+                    steps = [{"muts": []},
+                             {"muts": [["retarget", pos, mutate_spec(rng, base[pos], n, "out")]]},
+                             {"muts": [["retarget", pos, mutate_spec(rng, base[pos], n, "in")]]},
+                             {"muts": [["retarget", pos, mutate_spec(rng, base[pos], n, "out")], ["peek"],
+                                       ["retarget", pos, mutate_spec(rng, base[pos], n, "in")]]},
+                             {"muts": [["retarget", pos, base[pos]]]}]
+                    H.append({"kind": "history", "proc": procname, "ctor": ctor, "circuit": base, "options": o, "steps": steps})
+        # the seeded scenario in its plainest form: X, SX, measure q0; measure re-targeted to qubit n / n + 4 / two qubits
+        H.append({"kind": "history", "proc": procname, "ctor": "list", "options": o,
+                  "circuit": [("plain", "x", q(0)), ("plain", "sx" if procname in ("qsim", "qc") else "x", q(0)), ("measure", [q(0)], [])],
+                  "steps": [{"muts": []}, {"muts": [["retarget", 2, ("measure", [q(n)], [0])]]},
+                            {"muts": [["retarget", 2, ("measure", [q(0), q(n - 1)], [])]]},
+                            {"muts": [["retarget", 2, ("measure", [q(n + 4)], [])]]},
+                            {"muts": [["retarget", 0, ("plain", "x", q(n))]]},
+                            {"muts": [["retarget", 0, ("plain", "x", q(0))], ["retarget", 2, ("measure", [q(0)], [5])]]}]})
+        # random histories: 2-5 steps of 1-3 changes (in-place re-targeting, append / prepend, replacing / deleting an entry
+        # of circuit.gates, looking at the circuit in between), sometimes without submitting after a step
+        D = [d for _, d in defects(procname)]
+        for _ in range((120 if thorough else 14) * (2 if procname == "qsim" else 1)):
+            base = rng.choice(base_circuits(procname, rng, 1) + [[rng.choice(meas_)]])
+            cur = list(base)
+            steps = [{"muts": []}] if rng.random() < 0.8 else []
+            for _s in range(rng.randint(2, 5)):
+                muts = []
+                for _m in range(rng.randint(1, 3)):
+                    r = rng.random()
+                    if r < 0.65 and cur:
+                        pos = rng.randrange(len(cur))
+                        new = mutate_spec(rng, cur[pos], n, rng.choice(["in", "in", "out", "any"]))
+                        muts.append(["retarget", pos, new])
+                        cur[pos] = new
+                    elif r < 0.75:
+                        ins = rng.choice(one_ + two_ + meas_ + D[:4])
+                        muts.append([rng.choice(["append", "prepend"]), ins])
+                        cur = cur + [ins] if muts[-1][0] == "append" else [ins] + cur
+                    elif r < 0.85 and cur:
+                        pos = rng.randrange(len(cur))
+                        ins = rng.choice(one_ + two_ + meas_)
+                        muts.append(["setitem", pos, ins])
+                        cur[pos] = ins
+                    elif r < 0.9 and len(cur) > 1:
+                        pos = rng.randrange(len(cur))
+                        muts.append(["delete", pos])
+                        del cur[pos]
+                    else:
+                        muts.append(["peek"])
+                st = {"muts": muts}
+                if rng.random() < 0.15:
+                    st["submit"] = False
+                if rng.random() < 0.1 and procname in ("qsim", "qc"):
+                    st["proc"] = "qc" if procname == "qsim" else "qsim"
+                steps.append(st)
+            H.append({"kind": "history", "proc": procname, "ctor": rng.choice(["list", "list", "append"]), "circuit": base,
+                      "options": o, "steps": steps})
+    return H
+
+
+def histories(ctx):
+    ctx.rules.append("submission histories on ONE circuit object and processor: submit, change the circuit (instruction objects held by "
+                     "the circuit re-targeted IN PLACE through on(...) / set_control / target_gate().on / theta - measurements, gates, "
+                     "controlled gates, barriers, delays -, to qubits inside and outside the processor, other clbits; append_gate / "
+                     "prepend_gate; entries of circuit.gates replaced or deleted; particles()/clbits()/as_qasm() looked at in between), "
+                     "submit the SAME object again, 2-6 rounds, circuits built by Circuit([...]) and by append_gate: verdict, number of "
+                     "requests, Qobj, request body and Circuit.particles/clbits/as_qasm must equal those of a freshly built equal "
+                     "circuit, and the property oracle (accepted => every instruction executable, labels cover the indices) runs on "
+                     "every re-submission")
+    for hist in history_inputs(ctx.rng, ctx.thorough):
+        ctx.count("history_circuit_%s_%s" % (hist["proc"], hist["ctor"]))
+        for st in hist["steps"]:
+            for m in st["muts"]:
+                ctx.count("history_mut_" + m[0])
+        try:
+            run_history(ctx, hist)
+        except Exception as ex:
+            ctx.fail("history:harness-crash", hist, "every step evaluates", "%s: %s" % (type(ex).__name__, ex))
+        ctx.nontriv(("history", repr(hist)[:2000]))
 
 
 # ------------------------------------------------------------------------------------------ generators
@@ -828,6 +1118,10 @@ def run(ctx):
     except Exception as ex:
         ctx.count("recorded_history_probe_failed_" + type(ex).__name__)
 
+    # -- submission histories on one circuit object
+    histories(ctx)
+    ctx.log("histories done")
+
     # -- single instructions: as_qasm
     singles = []
     for procname in ("qsim", "qc", "custom1", "custom2"):
@@ -1011,7 +1305,9 @@ def replay(ctx, data):
 
     kind = inp.get("kind")
     terms = []
-    if kind in ("submit", "qobj"):
+    if kind == "history":
+        run_history(ctx, inp)
+    elif kind in ("submit", "qobj"):
         spec = [fix(i) for i in inp["circuit"]]
         o = inp["options"]
         verdict, nreq, exp, rec = submit(inp["proc"], spec, o)
